@@ -76,7 +76,10 @@ def parse_message(message, validation_level=None, find_groups=True, message_prof
     try:
         reference = message_profile[message_structure] if message_profile is not None else None
     except KeyError:
-        raise MessageProfileNotFound()
+        try:
+            reference = message_profile[message_structure.upper()]  # names are not case sensitive
+        except (KeyError, AttributeError):
+            raise MessageProfileNotFound()
     if reference is not None and reference[0] == 'mp':
         raise LegacyMessageProfile()
 
